@@ -11,3 +11,5 @@ import TdVerif.Props.C20
 import TdVerif.Props.C12
 import TdVerif.Props.C15
 import TdVerif.Props.C07
+import TdVerif.Props.C01
+import TdVerif.Props.C17
